@@ -168,6 +168,22 @@ def gen_domain(k):
     return out
 
 
+def gen_many(pairs):
+    """MANY short sequences (more than libstdc++'s insertion-sort cut-off of 16, where an unstable sort of the sample
+    shows): m in {17,...,100}, lengths 1..6 (sometimes 7..9), 1..4 distinct keys, every rank; about `pairs` (input, rank)
+    pairs. Judged by the extracted model / checker like every explicit-list case."""
+    out = []
+    n = 0
+    while n < pairs:
+        cmpc = rng.choice(["L", "L", "G", "Q"])
+        m = rng.choice([17, 18, 24, 32, 33, 48, 64, 100])
+        keys = rng.range(1, 4)
+        seqs = [make_seq(cmpc, rng.choice([1, 2, 3, 4, 5, 6, 1, 2, 3, 4, 7, 8, 9]), keys) for _ in range(m)]
+        out.append("rot %s %s" % (cmpc, fmt(seqs)))
+        n += sum(len(x) for x in seqs) + 1
+    return out
+
+
 def gen_narrow():
     """RankType narrower than the total number of elements (unsigned char with N > 255, short with N > 32767)"""
     out = []
@@ -216,6 +232,8 @@ elif ck.thorough():
     shards.append(("virtual", gen_virtual(400)))
     shards.append(("pad", gen_pad()))
     shards.append(("domain", gen_domain(400)))
+    for i in range(8):
+        shards.append(("many-sequences-%d" % i, gen_many(10000)))
 else:
     shards.append(("corpus", corpus))
     shards.append(("exh-L-m3-len4-k3", ["exh L 1 1 9 3", "exh L 2 1 4 3", "exh L 3 1 4 3"]))
@@ -227,6 +245,8 @@ else:
     shards.append(("virtual", gen_virtual(40)))
     shards.append(("pad", gen_pad()))
     shards.append(("domain", gen_domain(60)))
+    for i in range(2):
+        shards.append(("many-sequences-%d" % i, gen_many(5000)))
 
 # RankType narrower than the total (defect fixed in /repo b429853: N was accumulated in RankType): the witnesses of
 # corpus/C08/narrow.txt and virtual_narrow.txt first, then generated cases; run right after the corpus.
